@@ -816,6 +816,12 @@ class SStr(str):
     def __reduce__(self):
         raise Inconclusive("pickling a symbolic string")
 
+    def __copy__(self):
+        return self              # immutable, like str
+
+    def __deepcopy__(self, memo):
+        return self
+
 
 def lift(x):
     """native str -> raw (possibly fully concrete) SStr, so that the SStr algorithms run on it"""
